@@ -186,6 +186,7 @@ fn fam_lzma(ctx: &CaseCtx, cov: &mut Cov) -> CaseOut {
     let sink = SharedSink::new();
     let obs = sut::new_obs(u64::MAX);
     let reader = if rng.chance(1, 4) { ReaderKind::random(&mut rng) } else { ReaderKind::Slice };
+    let mut small_limit = false;
     let (verdict, input) = if bc.raw {
         let size = if with_marker { None } else { Some(fabricated_len) };
         match sut::raw_lzma_new(bc.props.lc, bc.props.lp, bc.props.pb, bc.dict, size, None) {
@@ -200,7 +201,16 @@ fn fam_lzma(ctx: &CaseCtx, cov: &mut Cov) -> CaseOut {
         let mut file = sut::lzma_header(bc.props.byte(), hdr_dict, Some(if with_marker { None } else { Some(fabricated_len) }));
         file.extend_from_slice(&payload);
         // a generous memory limit must not change anything
-        let memlimit = if rng.chance(1, 3) { Some(*rng.pick(&[1usize << 20, 1 << 30, usize::MAX])) } else { None };
+        // ... and a limit below the window needed must produce an error of its own, never
+        // a smaller window that silently aliases older bytes
+        let memlimit = match rng.below(6) {
+            0 | 1 => Some(*rng.pick(&[1usize << 20, 1 << 30, usize::MAX])),
+            2 => {
+                small_limit = true;
+                Some(rng.range(1, bc.dict as u64) as usize)
+            }
+            _ => None,
+        };
         let o = sut::opts(UnpackedSize::ReadFromHeader, memlimit, false);
         if rng.chance(1, 3) {
             // through the streaming decoder, in random pieces (bytes held back at the cut)
@@ -259,6 +269,8 @@ fn fam_lzma(ctx: &CaseCtx, cov: &mut Cov) -> CaseOut {
                     ),
                     data,
                 );
+            } else if !reached && small_limit {
+                cov.name("stopped_earlier_by_a_small_memory_limit", 1);
             } else if !reached {
                 out.harness_error(format!(
                     "decoder failed before reaching the bad symbol ({} of {} symbols): {}",
